@@ -94,6 +94,11 @@ def run_case(mon, base, idx, dname, assignment, xname, sh):
                 with open(p, "wb") as f:
                     f.write(content)
             case["env_files"] = "laid down by hand"
+            if idx % 5 == 0 and os.path.isdir(os.path.join(real, b"env")):
+                # ... one of them a symbolic link whose target is gone (a stale link from an earlier run): reading such a layer either fails
+                # or reads everything else - it does not quietly come back with less
+                os.symlink(b"/nonexistent/vp/target", os.path.join(real, b"env", b"GONE.override"))
+                case["dangling_env_file"] = True
         elif entries:
             rep = mon.call({"op": "write", "dir": hx(d), "entries": enc_entries(entries)})
             if "err" in rep:
@@ -112,6 +117,10 @@ def run_case(mon, base, idx, dname, assignment, xname, sh):
         QUERIES = BASE_QUERIES + [(sc, st) for sc in ["all", "build", "launch", "process:web"] for st in own]
         for cycle in range(4):
             rep = mon.call({"op": "read_apply", "dir": hx(d), "queries": enc_queries(QUERIES), "vanish": cycle == 2 and idx % 3 == 0 and style == 0})
+            if "err" in rep and case.get("dangling_env_file"):
+                sh.count("unreadable_env_file_reported")
+                sh.nontrivial.add(("dangling-env-file", xname))
+                return
             if "err" in rep:
                 sh.violation("read:error", "read_from_layer_dir failed on %r: %s" % (assignment, rep["detail"]), case)
                 return
